@@ -54,8 +54,8 @@ def setup(tier):
 
 def budget(tier):
     if tier == "quick":
-        return {"cases": 4000, "workers": 8, "watchdog_s": 900}
-    return {"cases": 160000, "workers": 16, "watchdog_s": 3600}
+        return {"cases": 30000, "workers": 8, "watchdog_s": 1800}
+    return {"cases": 1200000, "workers": 16, "watchdog_s": 3600, "budget_s": 600}
 
 
 def shape(node) -> str:
